@@ -39,17 +39,19 @@ def parseLoop : PState → Bytes → List Bytes → Bytes → Except PErr (PStat
     else if c = 126 then parseLoop .escaped buf toks cs
     else parseLoop .newToken (buf ++ [c]) toks cs
 
+/-- what the code does after the loop, by final state -/
+def finish : PState × Bytes × List Bytes → Except PErr (List Bytes)
+  | (.escaped, _, _) => .error .expected01
+  | (.newToken, buf, toks) => .ok (toks ++ [buf])
+  | (.part, buf, toks) => .ok (toks ++ [buf])
+  | (.start, _, toks) => .ok toks
+
 def parse (s : Bytes) : Except PErr (List Bytes) :=
   if s = [] then .ok []
   else
     match parseLoop .start [] [] s with
     | .error e => .error e
-    | .ok (st, buf, toks) =>
-      match st with
-      | .escaped => .error .expected01
-      | .newToken => .ok (toks ++ [buf])
-      | .part => .ok (toks ++ [buf])
-      | .start => .ok toks
+    | .ok r => finish r
 
 def escapeToken : Bytes → Bytes
   | [] => []
